@@ -663,6 +663,9 @@ func streamWrite() {
 		one(rawInstance{chord: &rawChord{degree: sp("1"), name: "m"}, values: []string{"1"}, key: sp("E#")}),
 		one(rawInstance{chord: &rawChord{degree: sp("99999999999"), name: "m"}, values: []string{"1"}}),
 		writeCase{flags: writeFlags{track: 1, instrument: "Piano"}},
+		one(rawInstance{chord: &rawChord{degree: sp("1"), name: "m"}, values: []string{"1"}, key: sp("B♭")}),
+		one(rawInstance{chord: &rawChord{degree: sp("1"), name: "m"}, values: []string{"1"}, key: sp("F♯m")}),
+		writeCase{flags: writeFlags{track: 1, instrument: "Piano", key: "E♭m"}, is: []rawInstance{{chord: &rawChord{degree: sp("1"), name: "m"}, values: []string{"1"}}}},
 		// pieces at and beyond the longest delta time a midi file can hold (0x0FFFFFFF ticks = 279620.26 beats)
 		one(rawInstance{chord: &rawChord{degree: sp("1"), name: ""}, values: []string{"279620"}}),
 		one(rawInstance{chord: &rawChord{degree: sp("1"), name: ""}, values: []string{"279621"}}),
